@@ -145,3 +145,42 @@ m('C14','user-event-unfiltered',W,
 m('C14','loop-no-deferred-leave',W,
   '\tdefer leaveGroup(c)\n\n\treadTime := time.Now()','\treadTime := time.Now()',
   'R14.4','clientLoop always leaves','a disconnecting client stays a member')
+# ---------------- C15 ----------------
+m('C15','spoof-source-unchecked',W,
+  '\tif m.Source != "" {\n\t\tif m.Source != c.Id() {\n\t\t\treturn group.ProtocolError("spoofed client id")\n\t\t}\n\t}\n','',
+  'R15.1','use of m.Source','messages forwarded under another client\'s id',quick=True)
+m('C15','spoof-username-only-chat',W,
+  'if m.Type != "join" {\n\t\tif m.Username != nil {','if m.Type == "chat" {\n\t\tif m.Username != nil {',
+  'R15.1','use of m.Username','user messages and kicks carry a spoofed username')
+m('C15','spoof-logged-not-refused',W,
+  'return group.ProtocolError("spoofed username")','log.Printf("spoofed username")',
+  'R15.1','use of m.Username','spoofed username only logged')
+m('C15','privileged-always',W,
+  'Privileged: slices.Contains(c.permissions, "op"),\n\t\t\tTime:       now.Format(time.RFC3339),\n\t\t\tKind:       m.Kind,',
+  'Privileged: true,\n\t\t\tTime:       now.Format(time.RFC3339),\n\t\t\tKind:       m.Kind,',
+  'R15.2','forwarded Privileged','every chat message marked privileged')
+m('C15','forward-drops-kind',W,
+  '\t\t\tKind:       m.Kind,\n\t\t\tNoEcho:     m.NoEcho,','\t\t\tNoEcho:     m.NoEcho,',
+  'R15.2','forwarded message is complete','kind not forwarded')
+m('C15','noecho-always',W,
+  'if m.NoEcho {\n\t\t\t\texcept = c\n\t\t\t}','except = c',
+  'R15.3','broadcast iff no destination','sender never receives its own broadcast')
+m('C15','private-in-history',W,
+  'if m.Type == "chat" {\n\t\t\tif m.Dest == "" {\n\t\t\t\tg.AddToChatHistory(','if m.Type == "chat" {\n\t\t\tif m.Dest != c.id {\n\t\t\t\tg.AddToChatHistory(',
+  'R15.3','history only for broadcast chat','private messages replayed to later joiners')
+m('C15','unicast-wrong-target',W,
+  'cc := g.GetClient(m.Dest)\n\t\t\tif cc == nil {\n\t\t\t\treturn c.error(group.UserError("user unknown"))','cc := g.GetClient(m.Id)\n\t\t\tif cc == nil {\n\t\t\t\treturn c.error(group.UserError("user unknown"))',
+  'R15.3','unicast to exactly the named destination','private message delivered to another client')
+m('C15','history-off-by-one',G,
+  'if len(g.history) >= maxChatHistory {','if len(g.history) > maxChatHistory {',
+  'R15.4','writer (*group.Group).AddToChatHistory','history holds 51 entries')
+m('C15','history-no-trim',G,
+  '\t\tg.history = g.history[:len(g.history)-1]\n','\t\t_ = g.history[:len(g.history)-1]\n',
+  'R15.4','writer (*group.Group).AddToChatHistory','history grows without bound')
+m('C15','clearchat-any-user',G,
+  'return e.Source == userId && (id == "" || e.Id == id)','return e.Source == userId || (id == "" || e.Id == id)',
+  'R15.5','clear by user','clearing one user\'s messages removes everyone\'s')
+m('C15','benign-spoof-single-if',W,
+  '\tif m.Source != "" {\n\t\tif m.Source != c.Id() {\n\t\t\treturn group.ProtocolError("spoofed client id")\n\t\t}\n\t}\n',
+  '\tif m.Source != "" && m.Source != c.Id() {\n\t\treturn group.ProtocolError("spoofed client id")\n\t}\n',
+  '','','nested ifs merged into one condition',benign=True)
